@@ -3,8 +3,102 @@
 #include "hist_exec3.hpp"
 #include "hist_gen.hpp"
 
-// ---------------------------------------------------------------- C17 stub (filled in later)
-void Exec::op_misuse(const Op&) {}
+// ---------------------------------------------------------------- C17: detected misuse (secure / debug builds)
+struct AreaOf { uintptr_t p; size_t used = 0, bsize = 0, cap = 0; uintptr_t lo = 0, hi = 0; bool found = false; };
+static bool area_of_cb(const mi_heap_t*, const mi_heap_area_t* area, void* block, size_t, void* arg) {
+  if (block) return true; AreaOf* a = (AreaOf*)arg; uintptr_t lo = (uintptr_t)area->blocks, hi = lo + area->reserved;
+  if (a->p >= lo && a->p < hi) { a->found = true; a->used = area->used; a->bsize = area->block_size; a->cap = area->full_block_size ? area->reserved / area->full_block_size : 0; a->lo = lo; a->hi = hi; return false; }
+  return true;
+}
+void Exec::op_misuse(const Op& op) {
+#if defined(VF_PADDING)
+  int s = (int)op.num("s"); if (s < 0 || s >= NSLOTS || !m.slots[s].live) return; Blk& b = m.slots[s];
+  std::string kind = op.str("kind", "dfree");
+  if (b.home < 1 || !m.heaps[b.home].alive || b.foreign || b.stranded || b.u > MiB) { count(C_EXCLUDED); return; }
+  // the block's area must keep at least one other live block (a second free after the whole area was released is outside the claim)
+  AreaOf ao; ao.p = (uintptr_t)b.p; mi_heap_visit_blocks(m.heaps[b.home].h, false, &area_of_cb, &ao);
+  if (!ao.found || ao.used < 2 || ao.cap < 2) { count(C_EXCLUDED); return; }
+  verify_blk(s, "before-misuse");
+  uint8_t* p = b.p; size_t n = b.n; int home = b.home; mi_heap_t* hp = m.heaps[home].h;
+  int eagain0 = mi_errors[0], efault0 = mi_errors[1], other0 = mi_errors[2] + mi_errors[5];
+  auto others = [&]() { return mi_errors[2] + mi_errors[5]; };
+  // allocations of the same class afterwards: never the same address twice, never overlapping a live block, always inside the heap
+  auto same_class_probe = [&](size_t count_max, bool until_p) {
+    std::vector<uint8_t*> got; bool seen_p = false;
+    for (size_t i = 0; i < count_max; i++) { uint8_t* q = (uint8_t*)launder(mi_heap_malloc(hp, n)); if (!q) break;
+      if (!mi_is_in_heap_region(q) && (uintptr_t)q < ((uintptr_t)48 << 40)) fail_now("misuse-outside-heap", "op#%ld after a detected %s the allocator returned %p which is outside its heap regions", opi, kind.c_str(), q);
+      check_disjoint(q, mi_usable_size(q), -1, "after-misuse");
+      got.push_back(q); if (q == p) { seen_p = true; if (until_p) break; } }
+    std::sort(got.begin(), got.end()); for (size_t i = 1; i < got.size(); i++) if (got[i] == got[i-1]) fail_now("handed-out-twice", "op#%ld after a detected %s the allocator handed out %p twice", opi, kind.c_str(), got[i]);
+    for (uint8_t* q : got) mi_free(q);
+    return seen_p; };
+  if (kind == "dfree") {
+    model_remove(s, true); mi_free(p); count(C_FREES);
+    if (mi_errors[0] != eagain0 || mi_errors[1] != efault0) fail_now("misuse-first-free-error", "op#%ld the first (legal) free of %p reported an error", opi, p);
+    size_t between = op.num("between", 0); std::vector<void*> tmp; size_t on = (n <= 1024 ? 5000 : 24);   // another class: cannot hand out p again
+    for (size_t i = 0; i < between && i < 8; i++) tmp.push_back(mi_heap_malloc(hp, on));
+    expect_err = EAGAIN;
+    mi_free(p);                                           // the misuse
+    expect_err = 0;
+    for (void* t : tmp) mi_free(t);
+    if (mi_errors[0] != eagain0 + 1) fail_now("double-free-undetected", "op#%ld second free of %p (n=%zu, area used=%zu) delivered %d EAGAIN reports instead of exactly one", opi, p, n, ao.used, mi_errors[0] - eagain0);
+    flag(F_MISUSE_DETECTED);
+#if defined(VF_SECURE_BUILD)
+    same_class_probe(ao.cap * 2 + 4, false);
+#endif
+  }
+  else if (kind == "overflow") {
+    if (!b.pristine || b.u != b.n || b.a > 16 || b.o != 0 || b.zmode || n == 0) { count(C_EXCLUDED); return; }
+    uint8_t v = (uint8_t)op.num("v", 1); if (v == 0 || v == 0xDE) v = 0x41;
+    p[n] = v;                                             // the misuse: one foreign byte just past the requested size
+    model_remove(s, true);
+    expect_err = EFAULT;
+    if (op.num("thread", 0)) { ThreadJob j; j.ptrs.push_back(p); run_thread(j); for (int i = 1; i < NHEAPS; i++) if (m.heaps[i].alive) m.heaps[i].pending_remote = true; } else mi_free(p);
+    expect_err = 0;
+    count(C_FREES);
+    if (mi_errors[1] == efault0) fail_now("overflow-undetected", "op#%ld byte 0x%02x written at offset %zu (= requested size) of block %p was not reported when the block was freed", opi, v, n, p);
+    flag(F_MISUSE_DETECTED);
+#if defined(VF_SECURE_BUILD)
+    mi_heap_collect(hp, false); same_class_probe(ao.cap + 4, false);
+#endif
+  }
+  else if (kind == "forge") {
+    uint64_t x = op.num("x", 0x9e3779b97f4a7c15ull) | 0x0001000100010001ull;   // (also after numeric shrinking)
+    if (op.num("thread", 0) && !known_f14_off) {
+      // known finding F14: the first remote free into a page goes to the heap's delayed-free list, whose links are followed without validation.
+      // Excluded by construction: another block of the same page is freed remotely first, so that the target goes to the page's thread-free list.
+      int primer = -1; for (auto it = m.live.lower_bound(ao.lo); it != m.live.end() && it->first < ao.hi; ++it) if (it->second != s && m.slots[it->second].home == home && !m.slots[it->second].stranded) { primer = it->second; break; }
+      if (primer < 0 || ao.used < 3) { count(C_EXCLUDED); return; }
+      Blk& pb = m.slots[primer]; verify_blk(primer, "primer"); ThreadJob pj; pj.ptrs.push_back(pb.p); model_remove(primer, true); run_thread(pj); count(C_FREES);
+      // (no collect here: until the owner handles the delayed block the page stays in the "no delayed free" state)
+    }
+    walk_unreliable = true;
+    model_remove(s, true);
+    if (op.num("thread", 0)) { ThreadJob j; j.ptrs.push_back(p); run_thread(j); for (int i = 1; i < NHEAPS; i++) if (m.heaps[i].alive) m.heaps[i].pending_remote = true; } else mi_free(p);
+    count(C_FREES);
+    if (mi_errors[1] != efault0) fail_now("misuse-first-free-error", "op#%ld the legal free of %p reported EFAULT", opi, p);
+    uint64_t w; memcpy(&w, p, 8); w ^= x; memcpy(p, &w, 8);   // the misuse: the free-list link is overwritten (always different from the stored value)
+    expect_err = EFAULT;
+    // allocate the class until p comes back (at most capacity allocations + slack): the forged link must be reported, not followed
+    bool seen = same_class_probe(ao.cap + 8, true);
+    if (op.num("thread", 0) && !seen) { mi_heap_collect(hp, false); seen = same_class_probe(ao.cap + 8, true); }
+    if (mi_errors[1] == efault0) {
+      if (!seen) { pending_forge++; /* expect_err stays armed in debug builds */ }   // p has not come back yet: the report is still due when the allocator reaches the link
+      else fail_now("forged-link-undetected", "op#%ld the overwritten free-list link in %p was followed without an EFAULT report", opi, p);
+    } else { flag(F_MISUSE_DETECTED); expect_err = 0; }
+#if !defined(VF_DEBUG_BUILD)
+    expect_err = 0;
+#endif
+  }
+  else return;
+  if (others() != other0) fail_now("misuse-other-error", "op#%ld unexpected error code reported (%d)", opi, last_err);
+#if defined(VF_DEBUG_BUILD)
+  stop_after_this_op = true;    // debug builds: internal assertions after a detected error are outside the claim
+#endif
+#else
+  (void)op;
+#endif
+}
 
 // ---------------------------------------------------------------- C13: purge police
 static void purge_event(int kind, void* addr, size_t len, int arg, int failed) {
@@ -56,6 +150,22 @@ static void gen_option_prefix(Gen& g, uint64_t idx) {
     g.out.push_back(Op("opt").s("name", OPT_DOMS[i].name).i("v", OPT_DOMS[i].vals[vi]));
   }
 }
+static Case gen_c17(Chooser& ch) {
+  Profile pf; pf.min_ops = 20; pf.max_ops = 120; pf.big_ok = false; pf.w_fill = 10; pf.w_holes = 6; pf.w_talloc = 0; pf.w_heap = 3; pf.p_aligned = 8; pf.w_realloc = 4; pf.w_visit = 2;
+  Gen g(ch, pf); int nops = (int)ch.range(20, 120); int misuses = 0;
+  while ((int)g.out.size() < nops) {
+    if (g.out.size() > 6 && ch.chance(1, 7)) {
+      int s = g.pick_live(); if (s < 0) { g.step(); continue; }
+      Op op("misuse"); op.u("s", (uint64_t)s);
+      switch (ch.pick(3)) { case 0: op.s("kind", "dfree").u("between", ch.range(0, 8)); break;
+        case 1: op.s("kind", "overflow").u("v", ch.range(1, 255)).u("thread", ch.chance(1, 3)); break;
+        default: op.s("kind", "forge").u("x", ch.bits(8) | 0x0001000100010001ull).u("thread", ch.chance(1, 4)); break; }   // bits in every 16-bit lane: cannot decode into the same page
+      g.out.push_back(op); g.note_free(s); misuses++;
+    } else g.step();
+  }
+  return g.out;
+}
+
 // ---------------------------------------------------------------- C18: purge after the delay, without a forced collect
 void Exec::op_c18(const Op& op) {
   const std::string& nm = op.name;
@@ -340,7 +450,8 @@ static bool generate_special(const std::string& mode, Chooser& ch, uint64_t, Cas
   if (mode == "C11") { out = gen_c11(ch); return true; }
   if (mode == "C18") { out = gen_c18(ch); return true; }
   if (mode == "C07") { out = gen_c07_workload(ch); return true; }
-  if (mode == "C15") { out = gen_c15(ch); return true; }   // the fault position is filled in by HistHarness::generate
+  if (mode == "C15") { out = gen_c15(ch); return true; }
+  if (mode == "C17") { out = gen_c17(ch); return true; }   // the fault position is filled in by HistHarness::generate
   return false;
 }
 static bool execute_special(const std::string& mode, const Case& c, Exec& ex) {
